@@ -179,6 +179,20 @@ Theorem C06_brier_function_is_model_cell : forall fair X y t, X <> [] -> (fair =
 Proof. exact brier_function_is_model_cell. Qed.
 Print Assumptions C06_brier_function_is_model_cell.
 
+(* an infinite member is valid data, not a missing member: the cell counts it in m (and in i iff it is +inf), i.e. scores it
+   exactly as any finite member at or above (+inf: s = true), resp. below (-inf: s = false), the threshold; any other members
+   (missing or infinite ones included), any observation.  With the two theorems above this extends the threshold-integral
+   statement over a finite range to ensembles with infinite members (replace them by the end points of the range). *)
+Theorem C06_brier_infinite_member_is_valid : forall fair A B y t M (s : bool),
+  (if s then t <= M else M < t) ->
+  brier_ens_cell fair (A ++ XInf s :: B) y (XFin t) = brier_ens_cell fair (A ++ XFin M :: B) y (XFin t).
+Proof. exact brier_cell_inf_member. Qed.
+Print Assumptions C06_brier_infinite_member_is_valid.
+(* members [1, 2, 4, +inf], observation 3, threshold 7/2: i = 2 of m = 4 members, (2/4 - 0)^2 = 1/4 (not (2/3)^2) *)
+Example C06_brier_infinite_member_example :
+  brier_ens_cell false [XFin 1; XFin 2; XFin 4; XInf true] (XFin 3) (XFin (7 # 2)) =x= XFin (1 # 4).
+Proof. vm_compute. reflexivity. Qed.
+
 (* ================================================================================================ *)
 (* 6. invariances (on the executable model; missing members / observation included)                   *)
 (* ================================================================================================ *)
